@@ -81,7 +81,9 @@ func (s *ogServer) stop() {
 		_ = syscall.Kill(-s.cmd.Process.Pid, syscall.SIGKILL)
 		_, _ = s.cmd.Process.Wait()
 	}
-	if os.Getenv("C18_KEEP") == "" {
+	// the in-process server keeps running until the harness exits (it panics when its files vanish):
+	// its directory lies in the scratch directory of ./check, which removes it afterwards
+	if os.Getenv("C18_KEEP") == "" && s.cmd != nil {
 		_ = os.RemoveAll(s.dir)
 	}
 }
